@@ -23,7 +23,11 @@ func (k Keeper) ClaimVesting(ctx sdk.Context, msg *types.MsgClaimVesting) (*type
 	newClaims := sdk.Coins{}
 	var updatedVestingTokens []*types.VestingTokens
 	for _, vesting := range commitments.VestingTokens {
-		vestedSoFar := vesting.VestedSoFar(ctx)                         // tokens unlocked
+		vestedSoFar := vesting.VestedSoFar(ctx) // tokens unlocked
+		if vestedSoFar.LT(vesting.ClaimedAmount) {
+			// after a partial cancel the reduced total can have unlocked less than what was already claimed: nothing new to claim yet
+			vestedSoFar = vesting.ClaimedAmount
+		}
 		newClaim := vestedSoFar.Sub(vesting.ClaimedAmount)              // tokens to mint or transfer
 		newClaims = newClaims.Add(sdk.NewCoin(vesting.Denom, newClaim)) // adding coin to mint or transfer
 		vesting.ClaimedAmount = vestedSoFar                             // updating claimed amount
